@@ -12,7 +12,9 @@ open LR
 /-- the automaton the emitted `get_action` / `get_goto` implement -/
 def autoOfTable (t : Table.Table) : Auto Nat Nat :=
   { start := t.start, items := fun _ _ => False, delta := fun _ _ => none,
-    action := fun s la => t.action s (la.getD t.nT),
+    action := fun s la => match la with
+      | none => t.action s t.nT
+      | some c => if c < t.nT then t.action s c else .err,
     goto := fun s b => t.goto s b,
     first := fun _ _ _ => False }
 
@@ -26,18 +28,16 @@ inductive Out (P : Type) where
 /-- `parse`: run to completion; `pulled` counts the items taken from the user's
 iterator (the peeked lookahead included) -/
 def run {P : Type} (g : Grammar Nat Nat) (A : Auto Nat Nat) (input : List (Tok Nat P)) (fuel : Nat) : Out P :=
-  go fuel ⟨[A.start], [], input⟩
-where
-  go : Nat → Cfg Nat P → Out P
-    | 0, _ => .timeout
-    | fuel + 1, c =>
-      let consumed := input.length - c.rest.length
-      let pulled := min (consumed + 1) input.length
-      match step g A c with
-      | .cont c' => go fuel c'
-      | .ok t => .ok t pulled
-      | .panic => .panic
-      | .err => if c.rest.isEmpty then .errEof pulled else .errAt consumed pulled
+  match runCfg g A fuel ⟨[A.start], [], input⟩ with
+  | none => .timeout
+  | some (r, c) =>
+    let consumed := input.length - c.rest.length
+    let pulled := min (consumed + 1) input.length
+    match r with
+    | .ok t => .ok t pulled
+    | .panic => .panic
+    | .err => if c.rest.isEmpty then .errEof pulled else .errAt consumed pulled
+    | .cont _ => .panic
 
 /-! ### `derive(Debug)` of the returned value -/
 
